@@ -142,9 +142,11 @@ def cells_of(z, depth, ii, jj):
 class Membership:
     """per-pixel membership map of an image for one region"""
 
-    def __init__(self, z, shape, depth, cells):
-        ii, jj = np.indices(shape)
-        c0, same = cells_of(z, depth, ii, jj)
+    def __init__(self, z, shape, depth, cells, cellmap=None):
+        if cellmap is None:
+            ii, jj = np.indices(shape)
+            cellmap = cells_of(z, depth, ii, jj)
+        c0, same = cellmap
         self.cell = c0
         self.judged = same
         self.inside = np.isin(c0, cells)
@@ -517,6 +519,7 @@ def eval_scene(o, rng, scene, kinds, distinct):
     snr = floodfill.snr_image(im, bkg, rms)
     shape = im.shape
     depth = scene['depth']
+    cellmaps = {}
     for kind in kinds:
         reg = build_region(rng, kind, scene, z, upix, depth)
         if reg is None:
@@ -524,7 +527,10 @@ def eval_scene(o, rng, scene, kinds, distinct):
             continue
         pd = copy_pixeldict(reg)
         cells = region_cells(pd, reg.maxdepth)
-        mem = Membership(z, shape, reg.maxdepth, cells)
+        if reg.maxdepth not in cellmaps:
+            ii, jj = np.indices(shape)
+            cellmaps[reg.maxdepth] = cells_of(z, reg.maxdepth, ii, jj)
+        mem = Membership(z, shape, reg.maxdepth, cells, cellmaps[reg.maxdepth])
         o.count('pixels_judged', int(mem.judged.sum()))
         o.count('pixels_unjudged', int((~mem.judged).sum()))
         o.count('region_' + kind)
@@ -646,20 +652,20 @@ def make_big_scene(rng, target):
         v = -(jj - cols / 2.0) * np.sin(t) + (ii - rows / 2.0) * np.cos(t)
         big = (u / a) ** 2 + (v / b) ** 2 <= 1.0
     elif shape_kind == 'bar':
-        w = int(rng.integers(6, 14))
+        w = int(max(rng.integers(6, 14), target / 400.0))
         ln = int(np.ceil(target / w)) + 1
         rows, cols = w + 12, ln + 12
         big = np.zeros((rows, cols), dtype=bool)
         big[6:6 + w, 6:6 + ln] = True
     elif shape_kind == 'L':
-        w = int(rng.integers(5, 11))
+        w = int(max(rng.integers(5, 11), np.sqrt(target / 12.0)))         # arms thick enough to keep the image small
         arm = int(np.ceil(target / (2.0 * w))) + w
         rows, cols = arm + 12, arm + 16
         big = np.zeros((rows, cols), dtype=bool)
         big[6:6 + arm, 6:6 + w] = True
         big[6 + arm - w:6 + arm, 6:6 + arm] = True
     else:
-        w = int(rng.integers(4, 8))
+        w = int(max(rng.integers(4, 8), np.sqrt(target / 30.0)))
         q = int(np.ceil(target / (4.0 * w))) + w
         rows, cols = q + 12, q + 18
         big = np.zeros((rows, cols), dtype=bool)
